@@ -54,6 +54,20 @@ Check(row, Node) ==
          IF c = 0 THEN "Pos.unresolvable"
          ELSE IF row.idx >= 0 /\ (~Node[c].isC \/ row.idx > Len(Node[c].cx)) THEN "Pos.index_out_of_range"
          ELSE ""
+    \* a reference found in a compiled document (divert, tunnel, function call, thread start, choice target,
+    \* read count, divert-target literal): it must resolve exactly, from the object that holds it, to existing
+    \* content - to a container where a container is meant (C06)
+    [] row.kind = "ref" ->
+         LET c == P!ResolveFrom(row.from, [rel |-> row.rel, path |-> row.path]) IN
+         IF c = 0 THEN "Ref.unresolvable"
+         ELSE IF row.want = "container" /\ ~Node[c].isC THEN "Ref.not_a_container"
+         ELSE ""
+    \* outcome of one call of the compiler (C06): a story that loads, or an error whose line - if it names one -
+    \* exists in the input; anything else (panic, abort, timeout) matches no outcome
+    [] row.kind = "compile" ->
+         IF row.res = "ok" THEN (IF row.loads THEN "" ELSE "Compile.output_does_not_load")
+         ELSE IF row.res = "err" THEN (IF row.line = 0 \/ (row.line >= 1 /\ row.line <= row.nlines) THEN "" ELSE "Compile.error_line_out_of_range")
+         ELSE "Compile." \o row.res
     [] OTHER -> ""
 
 Init == l = 1 /\ base = 0 /\ nbad = 0
@@ -63,6 +77,10 @@ Next ==
   /\ LET row == Rows[l] IN
      IF row.kind = "doc"
      THEN base' = l /\ UNCHANGED nbad
+     ELSE IF row.kind = "compile"
+     THEN /\ UNCHANGED base
+          /\ LET v == Check(row, <<>>) IN
+             IF v = "" THEN UNCHANGED nbad ELSE PrintT(<<"MISMATCH", l, v>>) /\ nbad' = nbad + 1
      ELSE LET N == [i \in 1..Rows[base].n |-> Rows[base + i]]
               v == Check(row, N) IN
           /\ UNCHANGED base
